@@ -566,7 +566,7 @@ func (c *Ctx) compiledSpec(sf *SpecFun) *compiledSpec {
 		return cs
 	}
 	for iter := 0; iter < 5; iter++ {
-		env := &Env{c: c, specMode: true, heapParams: map[string]bool{}, vars: map[string]TVal{}, pkg: pkg}
+		env := &Env{c: c, specMode: true, heapParams: map[string]bool{}, vars: map[string]TVal{}, pkg: pkg, twoHeaps: true, file: file}
 		for i, p := range sf.Params {
 			env.vars[p.Name] = TVal{term: "a_" + p.Name, ty: cs.params[i]}
 		}
@@ -582,7 +582,11 @@ func (c *Ctx) compiledSpec(sf *SpecFun) *compiledSpec {
 		if strings.Join(hs, ",") == strings.Join(cs.heaps, ",") {
 			var ps []string
 			for _, h := range hs {
-				ps = append(ps, fmt.Sprintf("(hp_%s (Array Ref %s))", heapName(h), h))
+				if strings.HasPrefix(h, "old:") {
+					ps = append(ps, fmt.Sprintf("(hpo_%s (Array Ref %s))", heapName(h[4:]), h[4:]))
+				} else {
+					ps = append(ps, fmt.Sprintf("(hp_%s (Array Ref %s))", heapName(h), h))
+				}
 			}
 			for i, p := range sf.Params {
 				ps = append(ps, fmt.Sprintf("(a_%s %s)", p.Name, cs.params[i].sort))
@@ -598,8 +602,13 @@ func (c *Ctx) compiledSpec(sf *SpecFun) *compiledSpec {
 			if sf.Opaque {
 				var sorts, names []string
 				for _, h := range hs {
-					sorts = append(sorts, "(Array Ref "+h+")")
-					names = append(names, "hp_"+heapName(h))
+					if strings.HasPrefix(h, "old:") {
+						sorts = append(sorts, "(Array Ref "+h[4:]+")")
+						names = append(names, "hpo_"+heapName(h[4:]))
+					} else {
+						sorts = append(sorts, "(Array Ref "+h+")")
+						names = append(names, "hp_"+heapName(h))
+					}
 				}
 				for i, p := range sf.Params {
 					sorts = append(sorts, cs.params[i].sort)
@@ -990,7 +999,7 @@ func expandHeapLemma(tmpl, query string) string {
 			return
 		}
 		if vi == len(vars) {
-			if !strings.Contains(cur, "hp_") && !strings.Contains(cur, "hpo_") && !heapLemmaTrivial(cur) {
+			if !strings.Contains(cur, "hp_") && !strings.Contains(cur, "hpo_") && !(len(vars) > 1 && heapLemmaTrivial(cur)) {
 				out.WriteString(cur + "\n")
 				n++
 			}
